@@ -49,3 +49,7 @@ func init() {
 func init() {
 	prop("TMP-TABLES", []string{"OPMAPS", "PRECTABLE", "ASSOC", "KWTABLE", "OP2TABLE", "POSPROV"}, "temporary grouping while rules are being built", "")
 }
+
+func init() {
+	prop("TMP-VALUES", []string{"ASSERT", "DIVGUARD", "ARITY", "BODYKIND", "LISTCOVER", "PRIMWIRE"}, "temporary grouping while rules are being built", "")
+}
